@@ -39,12 +39,12 @@ Tree(scr) == MkBlocks(scr, <<>>)
 T3 == Tree(<< <<0,0>>, <<1,1>>, <<2,2>>, <<0,2>>, <<1,4>>, <<2,5>>, <<0,6>>, <<1,7>>, <<2,8>> >>)
 
 \* T4: 4 honest producers, producer 3 cut off: o1..o5 by 0,1,2 (LIB o1 after o5), d1..d6 by 3 alone from genesis.
-\* Without a restart the observer refuses d1 (number <= LIB); with one restart in between it adopts d1..d6 (LAZY).
+\* Without a restart the observer refuses d1 (number <= LIB); before repair b495bde5 it adopted d1..d6 when restarted in between (LAZY).
 T4 == Tree(<< <<0,0>>, <<1,1>>, <<2,2>>, <<0,3>>, <<1,4>>,
               <<3,0>>, <<3,6>>, <<3,7>>, <<3,8>>, <<3,9>>, <<3,10>> >>)
 
 \* T4s: 4 honest producers: o1,o2,o3 by 0,1,2; d1..d4 by 3 alone from genesis (longer: the others switch to it, LIB is
-\* still 0); then d5 by 0, d6 by 1, d7 by 3.  The proposal of producer 2 keeps pointing at o1 (STALE).
+\* still 0); then d5 by 0, d6 by 1, d7 by 3.  Before repair a4f2be36 the proposal of producer 2 kept pointing at o1 and became the LIB (STALE).
 T4s == Tree(<< <<0,0>>, <<1,1>>, <<2,2>>,
                <<3,0>>, <<3,4>>, <<3,5>>, <<3,6>>,
                <<0,7>>, <<1,8>>, <<3,9>> >>)
@@ -62,9 +62,9 @@ T4e == Tree(<< <<0,0>>, <<1,1>>, <<2,2>>, <<0,3>>, <<1,4>>,
 
 \* T3w: 3 honest producers, a chain longer than the rebuild window (3*required = 9 blocks): heights 1..12 round robin,
 \* then producer 0 misses block 12 and builds 12' on 11, 1 and 2 follow (13', 14'): rollback and restarts with a
-\* window that no longer starts at block 1.  The one-block fork at the tip is also the simplest way to see the LIB go
+\* window that no longer starts at block 1.  Before repair c846cf0d the one-block fork at the tip was the simplest way to see the LIB go
 \* DOWN: the rollback recomputes producer 2's proposal from the window (lower than the one it had made with block 12),
-\* and the next calcLIB result is assigned unconditionally (UNCOND).
+\* and the next calcLIB result was assigned unconditionally (UNCOND).
 T3w == Tree(<< <<0,0>>, <<1,1>>, <<2,2>>, <<0,3>>, <<1,4>>, <<2,5>>, <<0,6>>, <<1,7>>, <<2,8>>, <<0,9>>, <<1,10>>, <<2,11>>,
                <<0,11>>, <<1,13>>, <<2,14>> >>)
 
